@@ -68,6 +68,35 @@ type Env struct {
 	Detail bool   // keep logs, traces, samples (replay / sample runs)
 	T0     time.Time
 	seq    int64
+	frozen *frozenRun
+}
+
+// frozenRun: what is reported about a run is fixed when the verdict is reached; the teardown
+// that follows (cancelling contexts, closing watches) is scheduled too but is not part of the
+// event log that the determinism digest covers.
+type frozenRun struct {
+	digest, schedHash                                     uint64
+	steps, yields, preempts, focusPreempts, focusYields int
+	simNs                                                 int64
+	counters                                              map[string]int
+	pairs                                                 []string
+	unknown                                               int
+}
+
+func (e *Env) Freeze() {
+	if e.frozen != nil {
+		return
+	}
+	s := e.S
+	f := &frozenRun{digest: s.Digest(), schedHash: s.SchedHash(), steps: s.Steps, yields: s.Yields, preempts: s.Preempts, focusPreempts: s.FocusPreempt,
+		focusYields: s.FocusYields(), simNs: int64(time.Since(e.T0)), counters: map[string]int{}, unknown: s.Unknown}
+	for k, v := range s.Counters {
+		f.counters[k] = v
+	}
+	for k := range s.Pairs {
+		f.pairs = append(f.pairs, k)
+	}
+	e.frozen = f
 }
 
 // Seq is the simulator's global event sequence number.
@@ -189,23 +218,23 @@ func runOne(t *testing.T, wl *Workload, cfg string, seed uint64, replay map[stri
 			simrt.S = s
 			wl.Run(e)
 			finished = true
+			e.Freeze()
+			f := e.frozen
 			out.Tape = tp.Recorded()
-			out.Digest = s.Digest()
-			out.SchedHash = s.SchedHash()
-			out.Steps, out.Yields, out.Preempts, out.FocusPreempts, out.FocusYields = s.Steps, s.Yields, s.Preempts, s.FocusPreempt, s.FocusYields()
-			out.SimNs = int64(time.Since(e.T0))
+			out.Digest = f.digest
+			out.SchedHash = f.schedHash
+			out.Steps, out.Yields, out.Preempts, out.FocusPreempts, out.FocusYields = f.steps, f.yields, f.preempts, f.focusPreempts, f.focusYields
+			out.SimNs = f.simNs
 			if out.Counters == nil {
 				out.Counters = map[string]int{}
 			}
-			for k, v := range s.Counters {
+			for k, v := range f.counters {
 				out.Counters[k] += v
 			}
-			if s.Unknown > 0 {
-				out.Counters["infra:unregistered-goroutine"] += s.Unknown
+			if f.unknown > 0 {
+				out.Counters["infra:unregistered-goroutine"] += f.unknown
 			}
-			for k := range s.Pairs {
-				out.Pairs = append(out.Pairs, k)
-			}
+			out.Pairs = f.pairs
 			if detail {
 				for _, ev := range s.Events {
 					if strings.HasPrefix(ev, "run ") {
@@ -259,6 +288,7 @@ func lockStarvation(e *Env, prop string) {
 
 // teardown runs f as a scheduled task and keeps the scheduler going until it is done.
 func teardown(e *Env, f func()) {
+	e.Freeze()
 	done := false
 	simrt.GoNamed("zz-teardown", func() {
 		f()
